@@ -1,4 +1,4 @@
 From Coq Require Import Extraction ExtrOcamlBasic List.
 From C03 Require Import Model.
 Extraction "Model.ml" step init all_labels succs explore fuel enc refuting_schedule run_labels
-  stop_safe_b no_lost_wakeup_b asleep_unnotified.
+  stop_safe_b no_lost_wakeup_b asleep_unnotified resolve.
